@@ -170,9 +170,9 @@ def prog_from_lines(lines):
                 s["size"] = len(s["data"])
         elif t[0] == "addseg":
             p.segments.append(dict(type=0, flags=0, align=0, vaddr=0, paddr=0, members=[], explicit=False, nested_in=None))
-        elif t[0] == "segset":
+        elif t[0] == "segset" and int(t[1]) < len(p.segments):
             p.segments[int(t[1])][t[2]] = int(t[3])
-        elif t[0] == "segaddsec":
+        elif t[0] == "segaddsec" and int(t[1]) < len(p.segments):
             p.segments[int(t[1])]["members"].append(int(t[2]) - 2)
     if p.ctor == "compr" and not p.created:
         p.ctor = "compr-nocreate"
